@@ -18,6 +18,16 @@ the paths a run executes.  The generated file lists
                    into an attribute or an item, i.e. becomes reachable from
                    an instance.
 
+  request_time_methods / instance_writes : the methods of Application
+                   reachable from __call__ / __request__ through self, and
+                   every store or mutating call in them whose target is part
+                   of the application object (self.X..., also through local
+                   aliases, loop variables and dictionary views).
+
+Objects also include mutable default arguments, module- or class-level
+instances of the package's own classes and memoising decorators (each call
+of a memoised function counts as a write).
+
 coq/props/C17.v proves that every entry is one of the few allowed ones of
 model/SharedState.v (import-time filling of default_states, registration of
 the application name).  The scan is an under-approximation of all possible
@@ -29,7 +39,11 @@ import os
 import py2v
 
 MUT_CALLS = {"dict", "list", "set", "OrderedDict", "defaultdict",
-             "bytearray", "deque", "Counter"}
+             "bytearray", "deque", "Counter", "sorted"}
+PKG_CLASSES = set()     # classes defined in poorwsgi/*.py (filled by scan)
+MEMO_DECORATORS = {"lru_cache", "cache"}
+VIEWS = {"get", "items", "values", "keys"}
+REQUEST_ENTRIES = ("__call__", "__request__", "__profile_request__")
 MUT_METHODS = {"append", "add", "update", "setdefault", "pop", "popitem",
                "clear", "extend", "insert", "remove", "discard", "sort",
                "reverse", "move_to_end", "appendleft"}
@@ -45,7 +59,8 @@ def is_mutable_expr(node):
         fun = node.func
         name = fun.id if isinstance(fun, ast.Name) else \
             fun.attr if isinstance(fun, ast.Attribute) else None
-        return name in MUT_CALLS
+        # an instance of one of the package's own classes is mutable too
+        return name in MUT_CALLS or name in PKG_CLASSES
     return False
 
 
@@ -86,7 +101,12 @@ def scan(repo):
     for name in sorted(os.listdir(pkg)):
         if name.endswith(".py"):
             mods[name[:-3]] = ast.parse(open(os.path.join(pkg, name)).read())
+    PKG_CLASSES.clear()
+    for tree in mods.values():
+        PKG_CLASSES.update(n.name for n in ast.walk(tree)
+                           if isinstance(n, ast.ClassDef))
     shared, nested = {}, set()
+    defaults = []
     for mod, tree in mods.items():
         def note(key, value):
             shared[key] = "module" if "." not in key[1] else "class"
@@ -169,6 +189,27 @@ def scan(repo):
             visible = {n: full for n, full in glob.items()
                        if n not in bound or n in globs}
             visible.update(alias)
+            # a mutable default value is one object for all calls
+            pos = fun.args.posonlyargs + fun.args.args
+            pairs = list(zip(pos[len(pos) - len(fun.args.defaults):],
+                             fun.args.defaults)) + \
+                [(a, d) for a, d in zip(fun.args.kwonlyargs,
+                                        fun.args.kw_defaults) if d]
+            for arg, dflt in pairs:
+                if is_mutable_expr(dflt):
+                    full = "%s(%s)" % (qual, arg.arg)
+                    visible[arg.arg] = full
+                    defaults.append(full)
+            # a memoising decorator keeps arguments and results of every
+            # call: a write whenever the function runs
+            for deco in fun.decorator_list:
+                dnode = deco.func if isinstance(deco, ast.Call) else deco
+                dname = dnode.id if isinstance(dnode, ast.Name) else \
+                    dnode.attr if isinstance(dnode, ast.Attribute) else None
+                if dname in MEMO_DECORATORS:
+                    defaults.append("%s(memo)" % qual)
+                    writes.append((qual, "%s(memo)" % qual, "memo",
+                                   fun.lineno))
             # class-level mutables reachable as ClassName.attr or self.attr
             shadowed = set()
             if cls in classes:
@@ -275,8 +316,114 @@ def scan(repo):
                                        sub.lineno))
         visit(tree, [])
     objects = sorted("%s.%s" % k for k in shared) + \
-        sorted(set(imports.values()) - {"%s.%s" % k for k in shared})
+        sorted(set(imports.values()) - {"%s.%s" % k for k in shared}) + \
+        sorted(set(defaults))
     return objects, sorted(set(writes)), sorted(set(escapes))
+
+
+def rooted(expr, names):
+    """'self.X' (or what a local alias stands for) when expr is a part of
+    the application object: an attribute / item / dictionary view chain
+    that starts at self or at an alias of such a chain"""
+    steps, first_attr, node = 0, None, expr
+    while True:
+        if isinstance(node, ast.Attribute):
+            first_attr, node, steps = node.attr, node.value, steps + 1
+        elif isinstance(node, ast.Subscript):
+            node, steps = node.value, steps + 1
+        elif isinstance(node, ast.Call) and \
+                isinstance(node.func, ast.Attribute) and \
+                node.func.attr in VIEWS:
+            node, steps = node.func.value, steps + 1
+        else:
+            break
+    if isinstance(node, ast.Name):
+        if node.id == "self":
+            return "self." + first_attr if steps and first_attr else None
+        return names.get(node.id)
+    return None
+
+
+def flat(target):
+    if isinstance(target, (ast.Tuple, ast.List)):
+        for elt in target.elts:
+            yield from flat(elt)
+    else:
+        yield target
+
+
+def scan_instance(repo, clsname="Application"):
+    """(methods that run for a request, writes through self inside them):
+    the closure of __call__/__request__ over self.<method> references, and
+    every store / mutating call whose target is part of the application
+    object, directly or through a local alias or loop variable"""
+    tree = ast.parse(open(os.path.join(repo, "poorwsgi", "wsgi.py")).read())
+    cls = next(n for n in tree.body
+               if isinstance(n, ast.ClassDef) and n.name == clsname)
+    methods = {m.name: m for m in cls.body
+               if isinstance(m, (ast.FunctionDef, ast.AsyncFunctionDef))}
+    todo = [e for e in REQUEST_ENTRIES if e in methods]
+    seen = []
+    while todo:
+        name = todo.pop()
+        if name in seen:
+            continue
+        seen.append(name)
+        for sub in ast.walk(methods[name]):
+            if isinstance(sub, ast.Attribute) and \
+                    isinstance(sub.value, ast.Name) and \
+                    sub.value.id == "self" and sub.attr in methods and \
+                    sub.attr not in seen:
+                todo.append(sub.attr)
+    out = []
+    for name in sorted(seen):
+        fun = methods[name]
+        qual = "wsgi.%s.%s" % (clsname, name)
+        names = {}
+        for _ in range(3):          # aliases of aliases
+            for sub in ast.walk(fun):
+                if isinstance(sub, ast.Assign):
+                    root = rooted(sub.value, names)
+                    if root:
+                        for tgt in sub.targets:
+                            for elt in flat(tgt):
+                                if isinstance(elt, ast.Name):
+                                    names[elt.id] = root
+                elif isinstance(sub, (ast.For, ast.comprehension)):
+                    root = rooted(sub.iter, names)
+                    if root:
+                        for elt in flat(sub.target):
+                            if isinstance(elt, ast.Name):
+                                names[elt.id] = root
+                elif isinstance(sub, ast.NamedExpr):
+                    root = rooted(sub.value, names)
+                    if root and isinstance(sub.target, ast.Name):
+                        names[sub.target.id] = root
+        for sub in ast.walk(fun):
+            tgts = []
+            if isinstance(sub, (ast.Assign, ast.Delete)):
+                tgts = [e for t in sub.targets for e in flat(t)]
+            elif isinstance(sub, (ast.AugAssign, ast.AnnAssign)):
+                tgts = [sub.target]
+            for tgt in tgts:
+                if isinstance(tgt, (ast.Attribute, ast.Subscript)):
+                    root = rooted(tgt, names)
+                    if root:
+                        out.append((qual, root, "store", sub.lineno))
+            if isinstance(sub, ast.Call):
+                fn = sub.func
+                if isinstance(fn, ast.Attribute) and fn.attr in MUT_METHODS:
+                    root = rooted(fn.value, names)
+                    if root:
+                        out.append((qual, root, fn.attr, sub.lineno))
+                if isinstance(fn, ast.Name) and \
+                        fn.id in ("setattr", "delattr") and sub.args and (
+                            rooted(sub.args[0], names) or (
+                                isinstance(sub.args[0], ast.Name)
+                                and sub.args[0].id == "self")):
+                    out.append((qual, "self", fn.id, sub.lineno))
+    return ["wsgi.%s.%s" % (clsname, n) for n in sorted(seen)], \
+        sorted(set(out))
 
 
 def slit(text):
@@ -285,6 +432,7 @@ def slit(text):
 
 def gen_shared():
     objects, writes, escapes = scan(py2v.REPO)
+    rmethods, iwrites = scan_instance(py2v.REPO)
     out = ["(* GENERATED by harness/py2v_shared.py from poorwsgi/*.py -- do "
            "not edit *)",
            "From Coq Require Import List String.",
@@ -298,7 +446,15 @@ def gen_shared():
            "Definition shared_escapes : list (string * string * string) :="
            "\n  [%s]." % ";\n   ".join(
                "(%s, %s, %s)" % (slit(f), slit(o), slit(h))
-               for f, o, h in sorted({e[:3] for e in escapes}))]
+               for f, o, h in sorted({e[:3] for e in escapes})),
+           "(* methods of Application that run while a request is answered, "
+           "and\n   what they store into the application object *)",
+           "Definition request_time_methods : list string :=\n  [%s]." %
+           ";\n   ".join(slit(m) for m in rmethods),
+           "Definition instance_writes : list (string * string * string) :="
+           "\n  [%s]." % ";\n   ".join(
+               "(%s, %s, %s)" % (slit(f), slit(o), slit(h))
+               for f, o, h in sorted({w[:3] for w in iwrites}))]
     path = os.path.join(py2v.GEN, "SharedGen.v")
     text = "\n".join(out) + "\n"
     old = open(path).read() if os.path.exists(path) else None
@@ -322,3 +478,8 @@ if __name__ == "__main__":
         print("WRITE ", *w)
     for e in es:
         print("ESCAPE", *e)
+    meths, iw = scan_instance(sys.argv[1] if len(sys.argv) > 1
+                              else py2v.REPO)
+    print("REQUEST-TIME", *meths)
+    for w in iw:
+        print("IWRITE", *w)
